@@ -50,6 +50,7 @@ struct FaultArm {
 // ------------------------------------------------------------------------------------------------ values
 static std::string value_of(size_t n)
 {
+    if (n == 5) return std::string("ab\0cd", 5);                // embedded NUL, in-object
     if (n == 4) return "a\xE2\x82\xAC";                       // "a" + EURO SIGN: not representable in Latin-1
     if (n == 24) return " aB,\xE2\x82\xAC,abab::Zqr,MORE,x ";  // 24 bytes, heap-backed, with EURO SIGN
     // mixed case, blanks at both ends, repeated separators, a self-overlapping run ("abab"), "::" twice
@@ -59,6 +60,7 @@ static std::string value_of(size_t n)
     return body.substr(0, n - 1) + " ";
 }
 static const size_t SIZES[6] = {0, 1, 15, 16, 17, 40};
+static const size_t VALUES[7] = {0, 1, 5, 15, 16, 17, 40};  // values given to constructors / set: SIZES + one with an embedded NUL
 
 // ------------------------------------------------------------------------------------------------ world
 struct World {
@@ -340,6 +342,36 @@ static void build_const_ops()
     OPS("format({}{},a,b)", ST::format("{}{}", a, b));
     OPS("format({>45},a)", ST::format("{>45}", a));
     OPS("format({.3},a)", ST::format("{.3}", a));
+    // the same calls with the string as a *non-const lvalue* (forwarding references must not move from it)
+#define MA const_cast<S &>(a)
+#define MB const_cast<S &>(b)
+    OPS("format({},lvalue a)", ST::format("{}", MA));
+    OPS("format({}{},lvalue a,lvalue b)", ST::format("{}{}", MA, MB));
+    OPS("format(check_validity,{},lvalue a)", ST::format(ST::check_validity, "{}", MA));
+    OPS("format_latin_1({},lvalue a)", ST::format_latin_1("{}", MA));
+    OPS("\"{}\"_stfmt(lvalue a)", ST::literals::operator""_stfmt("{}", 2)(MA));
+    OPS("\"{}|{}\"_stfmt(lvalue a,lvalue a)", ST::literals::operator""_stfmt("{}|{}", 5)(MA, MA));
+    OPS("\"{}\"_stfmt(const a)", ST::literals::operator""_stfmt("{}", 2)(a));
+    OPS("lvalue a+lvalue b", MA + MB);
+    OPS("S(lvalue a)", S(MA));
+    OPS("lvalue a.replace(lvalue a,lvalue b)", MA.replace(MA, MB));
+    OPS("(stream<<lvalue a).to_string()", [&] {
+        ST::string_stream ss;
+        ss << MA;
+        return ss.to_string();
+    }());
+    OPSTD(char, "writef(ostringstream,{},lvalue a)", [&] {
+        std::ostringstream os;
+        ST::writef(os, "{}", MA);
+        return os.str();
+    }());
+    OPSTD(char, "ostringstream<<lvalue a", [&] {
+        std::ostringstream os;
+        os << MA;
+        return os.str();
+    }());
+#undef MA
+#undef MB
     OPS("(stream<<a).to_string()", [&] {
         ST::string_stream ss;
         ss << a;
@@ -453,7 +485,7 @@ struct StrSys : World {
         nm = strf("two strings, s0 starts with %zu bytes", init);
         for (int i = 0; i < 2; ++i) {
             int j = 1 - i;
-            for (size_t n : SIZES) ops.push_back(MOp{M_CONSTRUCT, i, -1, n});
+            for (size_t n : VALUES) ops.push_back(MOp{M_CONSTRUCT, i, -1, n});
             ops.push_back(MOp{M_COPY_CTOR, i, j, 0});
             ops.push_back(MOp{M_MOVE_CTOR, i, j, 0});
             ops.push_back(MOp{M_DTOR, i, -1, 0});
@@ -462,7 +494,7 @@ struct StrSys : World {
             ops.push_back(MOp{M_MOVE_ASSIGN, i, j, 0});
             ops.push_back(MOp{M_SET_STRING, i, j, 0});
             ops.push_back(MOp{M_SET_MOVE, i, j, 0});
-            for (size_t n : SIZES) ops.push_back(MOp{M_SET_CSTR, i, -1, n});
+            for (size_t n : VALUES) ops.push_back(MOp{M_SET_CSTR, i, -1, n});
             for (size_t n : {size_t(1), size_t(16)}) ops.push_back(MOp{M_ASSIGN_CSTR, i, -1, n});
             for (size_t n : {size_t(15), size_t(40)}) ops.push_back(MOp{M_SET_BUFFER, i, -1, n});
             ops.push_back(MOp{M_APPEND, i, j, 0});
@@ -699,7 +731,7 @@ struct StrSys : World {
             case M_SET_CSTR: {
                 std::string v = value_of(o.n);
                 LIB(a->set(v.c_str()));
-                m = v;
+                m = std::string(v.c_str());  // a C-string argument denotes the bytes before its first NUL
                 tag = "set(cstr)";
                 break;
             }
@@ -766,12 +798,13 @@ struct StrSys : World {
                 break;
             case M_ASSIGN_OWN_CSTR:
                 LIB(*a = a->c_str());
+                m = std::string(m.c_str());
                 tag = "assign(own c_str)";
                 break;
             case M_SET_OWN_TAIL: {
                 size_t k = own_cut(m, m.size() / 2);
                 LIB(a->set(a->c_str() + k));
-                m = m.substr(k);
+                m = std::string(m.c_str() + k);
                 tag = "set(own c_str + k)";
                 break;
             }
@@ -791,7 +824,7 @@ struct StrSys : World {
             }
             case M_APPEND_OWN_CSTR:
                 LIB(*a += a->c_str());
-                m += std::string(m);
+                m += std::string(m.c_str());
                 tag = "append(own c_str)";
                 break;
             case M_SET_OWN_PTRLEN: {
